@@ -1232,6 +1232,11 @@ func (m *Machine) builtin(b *ssa.Builtin, args []Value, raw []ssa.Value, fr *fra
 			}
 		}
 		return Slice{n, 0, nl, nc}
+	case "ssa:wrapnilchk":
+		if p, ok := args[0].(Ptr); ok && p.isNil() {
+			m.end("gopanic", "value method called through nil pointer in "+fr.fn.String())
+		}
+		return args[0]
 	case "recover":
 		return Iface{}
 	case "delete":
